@@ -227,6 +227,13 @@ def run(ctx):
     lrej = ctx.validate(lrecs)
     lang.report(ctx, lrej, lby)
     lang.note_unreproduced(ctx, lrecs, lrej)
+    # non-vacuity: section bounds counted in a blank-filtered copy of the file and bodies cut from the original (Framing.tla,
+    # Design = "filtered" - seeded changes C02e, C14b, C13k) must violate C06Framing
+    badf = ctx.mc("MC_Framing", "MC_Framing_filtered", allow_violation=True, deadlock=False)
+    if badf.violated != "C06Framing":
+        from ctx import MachineryError
+        raise MachineryError("Framing.tla: bounds counted in a blank-filtered copy do not violate C06Framing (vacuous model): " + str(badf.violated))
+    ctx.extra["model_variant_blank_filtered_violates"] = badf.violated
     # ---- MC + REPLAY: the framing scanner on every short tail; all well-formed ones + a seeded slice of the rest
     res = ctx.mc("MC_Framing", ctx.pick("MC_Framing_quick", "MC_Framing"), deadlock=False, timeout=1800)
     beh = _notes._behaviours(res)
